@@ -148,7 +148,7 @@ ORACLES = {"C01": oracle_c01, "C03": oracle_c03, "C06": oracle_c06, "C18": oracl
 # --------------------------------------------------------------------------- worker
 
 _memo: dict = {}
-MINIMISE_CAP = 4000  # per program
+MINIMISE_CAP = 1500  # per program: distinct minimal failures after which raw cases are reported unminimised (flood control)
 
 
 def _eval(prop, case: g.Case):
@@ -197,7 +197,7 @@ def work(unit):
         raw_fail += 1
         for cls in classes:
             outcome["fail:" + cls.split(":")[0]] += 1
-            if raw_fail > MINIMISE_CAP and (case, cls) not in minimal:
+            if len(minimal) > MINIMISE_CAP and (case, cls) not in minimal:
                 # flood of failures for this program: report the raw case instead of minimising
                 outcome["not_minimised"] += 1
                 minimal[(case, cls)] = [1, detail]
